@@ -68,7 +68,7 @@ def nonce(ctr):
 
 
 class CoapH(explore.Harness):
-    ALPH = ["req", "deliver", "replay-first", "replay-last", "future", "corrupt", "cancel", "timer", "ev", "ev-replay", "ev-corrupt"]
+    ALPH = ["req", "deliver", "replay-first", "replay-last", "future", "corrupt", "cancel", "timer", "ev", "ev-odd", "ev-replay", "ev-replay-last", "ev-corrupt"]
 
     def __init__(self, p):
         from aiohomekit.controller.coap.connection import EncryptionContext, EventResource
@@ -111,10 +111,12 @@ class CoapH(explore.Harness):
         self.acc_tx += 1
         return ct
 
-    def _seal_event(self):
+    def _seal_event(self, odd=False):
         self.n += 1
         body = b""
         pdu = struct.pack("<BHH", 0, 9, len(body)) + body
+        if odd:
+            pdu += b"\x00"  # authentic, but the record list does not parse to its end (handling it raises after decryption)
         ct = C.seal(self.k_event, nonce(self.acc_ev), pdu)
         self.genuine[aeadspy.digest(ct)] = ("event", self.acc_ev)
         self.acc_ev += 1
@@ -149,10 +151,13 @@ class CoapH(explore.Harness):
             elif a == "timer":
                 if busy and self.loop.next_timer() is not None:
                     m.append(a)
-            elif a in ("ev", "ev-corrupt"):
+            elif a in ("ev", "ev-corrupt", "ev-odd"):
                 m.append(a)
             elif a == "ev-replay":
                 if self.sent_ev:
+                    m.append(a)
+            elif a == "ev-replay-last":
+                if len(self.sent_ev) > 1:
                     m.append(a)
         return m
 
@@ -195,12 +200,15 @@ class CoapH(explore.Harness):
             next(t for t in self.tasks if not t.done()).cancel()
         elif label == "timer":
             self.loop.fire_next_timer()
-        elif label in ("ev", "ev-replay", "ev-corrupt"):
-            if label == "ev":
-                ct = self._seal_event()
+        elif label in ("ev", "ev-odd", "ev-replay", "ev-replay-last", "ev-corrupt"):
+            if label in ("ev", "ev-odd"):
+                ct = self._seal_event(odd=label == "ev-odd")
                 self.sent_ev.append(ct)
+                self.odd = getattr(self, "odd", set()) | ({ct} if label == "ev-odd" else set())
             elif label == "ev-replay":
                 ct = self.sent_ev[0]
+            elif label == "ev-replay-last":
+                ct = self.sent_ev[-1]
             else:
                 b = bytearray(self._seal_event())
                 b[2] ^= 0x01
@@ -208,7 +216,7 @@ class CoapH(explore.Harness):
                 self.bad.add(aeadspy.digest(ct))
             t = self.loop.create_task(self.events.render_put(_PutReq(ct)))
             self.loop.run_until_idle()
-            if t.done() and not t.cancelled() and t.exception() is not None:
+            if t.done() and not t.cancelled() and t.exception() is not None and ct not in getattr(self, "odd", ()):
                 self.viol.append((f"coap:event-handler-raises:{type(t.exception()).__name__}", {"label": label}))
         self.loop.run_until_idle()
         self._check()
